@@ -198,6 +198,12 @@ func c19Valid(c *fw.Ctx, i int) {
 		}
 	}
 	v := c19Build(r, n, mask, hasRes)
+	if bits.OnesCount(uint(mask)) >= 12 && r.Chance(1, 3) {
+		// the largest allocations: four temporal layers everywhere, bitrates of three and more LEB128 bytes (> 255 bytes in total)
+		for k := range v.Layers {
+			v.Layers[k].Kbps = []int{16384 + r.Intn(1<<20), 1<<21 + r.Intn(1<<20), 1<<28 + r.Intn(1<<20), 1<<32 - 1 - r.Intn(1000)}
+		}
+	}
 	want := ref.EncodeVLA(v)
 	if back, nn, ok := ref.DecodeVLA(want); !ok || nn != len(want) {
 		c.HarnessBug("reference VLA decoder rejects reference encoder output " + fw.Hex(want))
